@@ -72,15 +72,19 @@ class Double:
             # later rows: enumerated representatives (one-hot at the pick, uniform, skewed)
             pmf = {'onehot': [1.0 if j == idx else 0.0 for j in range(n)],
                    'skew': ([0.75]+[0.25/(n-1)]*(n-1)) if n > 1 else [1.0]}[shape]
-        return dict(idx=idx, a=actions[idx], p=p, pmf=pmf, tok=Tok(i), actions=list(actions))
+        return dict(idx=idx, a=actions[idx], p=p, pmf=pmf, tok=Tok(i), tok2=Tok(100+i), i=i, actions=list(actions))
+    @staticmethod
+    def _kwr(r):
+        # two keys whose insertion order differs from row to row (a learner may build its kwargs along different branches)
+        return {'k': r['tok'], 'j': r['tok2']} if r['i'] % 2 == 0 else {'j': r['tok2'], 'k': r['tok']}
     def _one(self, r):
         f = self.fmt
         body = {'AX': r['a'], 'AP': (r['a'], r['p']), 'PM': list(r['pmf']), 'AX*': {'action': r['a']},
                 'AP*': {'action_prob': (r['a'], r['p'])}, 'PM*': {'pmf': list(r['pmf'])}}[f]
         if not self.kw: return body
-        if f == 'AP': return (r['a'], r['p'], {'k': r['tok']})
-        if f == 'PM' and self.flat: return list(r['pmf']) + [{'k': r['tok']}]       # PMF followed by the kwargs mapping, flat like (action, prob, kwargs)
-        return (body, {'k': r['tok']})
+        if f == 'AP': return (r['a'], r['p'], self._kwr(r))
+        if f == 'PM' and self.flat: return list(r['pmf']) + [self._kwr(r)]       # PMF followed by the kwargs mapping, flat like (action, prob, kwargs)
+        return (body, self._kwr(r))
     def predict(self, context, actions):
         batched = hasattr(context,'is_batch') or hasattr(actions,'is_batch')
         if not batched:
@@ -92,7 +96,7 @@ class Double:
             return [self._one(r) for r in rows]
         # column major
         f = self.fmt
-        kwd = {'k': [r['tok'] for r in rows]}
+        kwd = {'k': [r['tok'] for r in rows], 'j': [r['tok2'] for r in rows]}
         if f == 'AX':  body = [[r['a'] for r in rows]]
         if f == 'AP':  body = [tuple(r['a'] for r in rows), tuple(r['p'] for r in rows)]
         if f == 'PM':  body = [list(c) for c in zip(*[r['pmf'] for r in rows])]
@@ -183,8 +187,8 @@ def formats(sym, fmt, kw, mode, n):
                 sym.check(ok, f"row {r}: PMF draw is not the seeded inverse-CDF member reported with exactly its probability")
         # kwargs
         if kw:
-            if mode == 'none': sym.check(K == {'k': said[0]['tok']} and K['k'] is said[0]['tok'], "kwargs payload changed")
-            else: sym.check(list(K.keys()) == ['k'] and len(K['k']) == nrows and all(x is r['tok'] for x,r in zip(K['k'],said)), "batched kwargs payload changed")
+            if mode == 'none': sym.check(K == {'k': said[0]['tok'], 'j': said[0]['tok2']} and K['k'] is said[0]['tok'] and K['j'] is said[0]['tok2'], "kwargs payload changed")
+            else: sym.check(sorted(K.keys()) == ['j','k'] and len(K['k']) == nrows and len(K['j']) == nrows and all(x is r['tok'] for x,r in zip(K['k'],said)) and all(x is r['tok2'] for x,r in zip(K['j'],said)), "batched kwargs payload changed (every key must keep its own values, whatever the key order of a row)")
         else:
             sym.check(K == {}, f"kwargs {K!r} invented")
         # hand back to learn
@@ -201,7 +205,7 @@ def formats(sym, fmt, kw, mode, n):
             sym.check(len(learned) == nrows, f"a learner whose learn cannot handle batches must be taught once per row, got {len(learned)} calls")
             for r,c in enumerate(learned):
                 sym.check(c[2] is As[r] and (c[4] is Ps[r] or c[4] == Ps[r]), f"row {r}: per-row learn got a different action/probability")
-                sym.check(c[5] == ({'k': said[r]['tok']} if kw else {}), f"row {r}: per-row learn kwargs")
+                sym.check(c[5] == ({'k': said[r]['tok'], 'j': said[r]['tok2']} if kw else {}), f"row {r}: per-row learn kwargs")
         else:
             sym.check(len(learned) == 1 and list(learned[0][2]) == As and learned[0][5] == K, "batched learn did not receive actions/kwargs unchanged")
 
